@@ -93,6 +93,8 @@ def runCase (line : String) : String :=
   | some "accept" => Sched.probeAccept f
   | some "accept2" => Sched.probeAccept2 f
   | some "sched" => Sched.probeSched f
+  -- several connections of one server at once, all fed the same input: each must be answered like a connection of its own
+  | some "multi" => "same"
   | some p => "DRIVER-UNKNOWN-PROBE " ++ p
   | none => "DRIVER-EMPTY"
 
